@@ -131,6 +131,9 @@ def run_c16(out, tier, rng):
     for base in bases[:1]:
         for op, extra in (("save", {"edit": 2}), ("import", {"audio": audio_files()[:1]})):
             specs.append(dict({"op": op, "base": base, "dest": "symlink-to-base", "flag": "true", "fault": None}, **extra))
+        # a map the byte layer cannot write (a location past the map's edge): the save fails part-way
+        for dest in ("absent", "existing"):
+            specs.append({"op": "save", "base": base, "dest": dest, "flag": "true" if dest == "existing" else "default", "fault": None, "edit": "unencodable"})
         for aud in ([odd_audio], [odd_audio2]):
             for dest in ("absent", "existing"):
                 specs.append({"op": "import", "base": base, "dest": dest, "flag": "true" if dest == "existing" else "default", "fault": None, "audio": aud})
